@@ -137,3 +137,15 @@ CHECKS["C02"] = {
         {"kind": "fuzz", "bin": "asan/fuzz_C02", "cases": P(30000, 1000000), "procs": P(4, 16), "max_len": 6000},
     ],
 }
+
+CHECKS["C09"] = {
+    "level": "exploration",
+    "technique": "model-based: generated on-disk damage states of valid files (per-chunk intact/zeroed/garbage/partial/bit-flip, truncation incl. exactly between identical chunks, over-length, wrong data checksum, detached header) x generated sequences of the three validators followed by a full read; oracle = reference recomputation of every chunk digest over the bytes actually present, file snapshot, and a fresh-context baseline read",
+    "level_text": "For every generated state the expected per-chunk verdict vector and the overall verdict are recomputed independently from the bytes on disk; the library's flags and return codes must equal them after every scan in the sequence, the file must be byte-identical afterwards, and the subsequent read must behave exactly like a read on a fresh context. Sampled states and sequences.",
+    "level_note": "Trusted: reference digests (OpenSSL one-shot) and the generator's chunk table. For 'not valid' both -1 and 0 are accepted as return codes; only an unjustified 1 (or a missing 1) is a violation.",
+    "rule": "case = (file, damage per chunk, length change, detached?, wrong data digest?, validator sequence, read sizes). Non-trivial = at least one intact and one damaged chunk, or a truncation inside a chunk; distinct by choice-sequence hash.",
+    "assumptions": ["no hash collisions"],
+    "runs": [
+        {"bin": "asan/C09", "cases": P(2500, 40000), "procs": P(8, 16), "size": 70, "shrink_budget": 300},
+    ],
+}
